@@ -8,44 +8,63 @@
 (* remainder first, then queued messages, never more than n bytes).        *)
 (* Bytes are stream positions.  Constants select the behaviour of the code *)
 (* as found (finding F3: one task per write; F2: budget) for the record.   *)
+(* accept() is two critical sections of the code: get_socket_session makes *)
+(* the socket's queue visible to deliveries (AcceptTake), then             *)
+(* receive_stored_messages hands the backlog over (AcceptDrain).  On the   *)
+(* current_thread runtime no delivery can fall between them ("atomic"); on *)
+(* a multi_thread runtime one can.  As found ("asfound") such a delivery   *)
+(* went straight into the queue, overtaking the backlog, and the hand-over *)
+(* itself moved message by message with deliveries in between (finding     *)
+(* F25, reproduced on the code by `hv-core sockrace-drive`); after the     *)
+(* repair ("guarded") a delivery that finds a backlog joins it and the     *)
+(* hand-over is one step under the backlog lock.                           *)
 (***************************************************************************)
 EXTENDS Integers, Sequences, FiniteSets, TLC
 CONSTANTS Writes,          \* sequence of write lengths
           ReadSizes,       \* set of n for recv(n)
           QCap,            \* capacity of the socket's message queue (255 in the code)
           TaskPerWrite,    \* TRUE: as found (a spawned task per write, any order); FALSE: after the F3 repair
-          BudgetBug        \* TRUE: as found (second loop compares with n, not with what is left of n)
-VARIABLES wr, tasks, instr, inflight, sockQ, stored, out, lastRead, dropped, accepted, backlog
-vars == <<wr, tasks, instr, inflight, sockQ, stored, out, lastRead, dropped, accepted, backlog>>
+          BudgetBug,       \* TRUE: as found (second loop compares with n, not with what is left of n)
+          AcceptMode       \* "atomic" | "asfound" | "guarded" (see above)
+VARIABLES wr, tasks, instr, inflight, sockQ, stored, out, lastRead, dropped, accepted, backlog, ready
+vars == <<wr, tasks, instr, inflight, sockQ, stored, out, lastRead, dropped, accepted, backlog, ready>>
 Total == LET S[i \in 0..Len(Writes)] == IF i = 0 THEN 0 ELSE S[i - 1] + Writes[i] IN S[Len(Writes)]
 Start(k) == LET S[i \in 0..Len(Writes)] == IF i = 0 THEN 0 ELSE S[i - 1] + Writes[i] IN S[k - 1]
 Bytes(k) == [i \in 1..Writes[k] |-> Start(k) + i]
 Init == /\ wr = 0 /\ tasks = {} /\ instr = <<>> /\ inflight = <<>> /\ sockQ = <<>> /\ stored = <<>>
-        /\ out = <<>> /\ lastRead = [n |-> 0, len |-> 0] /\ dropped = 0 /\ accepted = FALSE /\ backlog = <<>>
+        /\ out = <<>> /\ lastRead = [n |-> 0, len |-> 0] /\ dropped = 0 /\ accepted = FALSE /\ backlog = <<>> /\ ready = FALSE
 \* application write k
 SockSend == /\ wr < Len(Writes) /\ wr' = wr + 1
             /\ IF TaskPerWrite THEN tasks' = tasks \cup {wr + 1} /\ UNCHANGED instr
                ELSE instr' = Append(instr, wr + 1) /\ UNCHANGED tasks
-            /\ UNCHANGED <<inflight, sockQ, stored, out, lastRead, dropped, accepted, backlog>>
+            /\ UNCHANGED <<inflight, sockQ, stored, out, lastRead, dropped, accepted, backlog, ready>>
 \* a spawned task gets to run and queues its instruction
 TaskRun(k) == /\ k \in tasks /\ tasks' = tasks \ {k} /\ instr' = Append(instr, k)
-              /\ UNCHANGED <<wr, inflight, sockQ, stored, out, lastRead, dropped, accepted, backlog>>
+              /\ UNCHANGED <<wr, inflight, sockQ, stored, out, lastRead, dropped, accepted, backlog, ready>>
 \* the TcpSession loop hands the write to the TCB; the TCB is a reliable ordered pipe
 InstrDequeue == /\ instr # <<>> /\ instr' = Tail(instr) /\ inflight' = inflight \o Bytes(Head(instr))
-                /\ UNCHANGED <<wr, tasks, sockQ, stored, out, lastRead, dropped, accepted, backlog>>
+                /\ UNCHANGED <<wr, tasks, sockQ, stored, out, lastRead, dropped, accepted, backlog, ready>>
 \* the receiving TcpSession delivers the next m bytes as one message (any chunking)
 SessReceive(m) ==
   /\ m \in 1..Len(inflight)
   /\ LET msg == SubSeq(inflight, 1, m) IN
      /\ inflight' = SubSeq(inflight, m + 1, Len(inflight))
-     /\ IF ~accepted THEN backlog' = Append(backlog, msg) /\ UNCHANGED <<sockQ, dropped>>
+     /\ IF ~accepted \/ (AcceptMode = "guarded" /\ backlog # <<>>) THEN backlog' = Append(backlog, msg) /\ UNCHANGED <<sockQ, dropped>>
         ELSE IF Len(sockQ) < QCap THEN sockQ' = Append(sockQ, msg) /\ UNCHANGED <<dropped, backlog>>
         ELSE dropped' = dropped + 1 /\ UNCHANGED <<sockQ, backlog>>          \* try_send fails: the bytes are lost (finding K1)
-  /\ UNCHANGED <<wr, tasks, instr, stored, out, lastRead, accepted>>
-\* accept(): the messages stored before the socket existed are replayed into the queue
-Accept == /\ ~accepted /\ accepted' = TRUE
-          /\ sockQ' = sockQ \o backlog /\ backlog' = <<>>
-          /\ UNCHANGED <<wr, tasks, instr, inflight, stored, out, lastRead, dropped>>
+  /\ UNCHANGED <<wr, tasks, instr, stored, out, lastRead, accepted, ready>>
+\* accept(), first critical section: the socket's queue becomes visible to deliveries
+AcceptTake == /\ ~accepted /\ accepted' = TRUE
+              /\ IF AcceptMode = "atomic" THEN sockQ' = sockQ \o backlog /\ backlog' = <<>> /\ ready' = TRUE
+                 ELSE UNCHANGED <<sockQ, backlog, ready>>
+              /\ UNCHANGED <<wr, tasks, instr, inflight, stored, out, lastRead, dropped>>
+\* accept(), second critical section: the messages stored before the socket existed are replayed into the queue --
+\* as found one try_send at a time with no lock a delivery respects, after the repair in one step under the backlog lock
+AcceptDrain == /\ accepted /\ ~ready /\ AcceptMode # "atomic"
+               /\ IF backlog = <<>> THEN ready' = TRUE /\ UNCHANGED <<sockQ, backlog>>
+                  ELSE IF AcceptMode = "asfound" THEN sockQ' = Append(sockQ, Head(backlog)) /\ backlog' = Tail(backlog) /\ UNCHANGED ready
+                  ELSE sockQ' = sockQ \o backlog /\ backlog' = <<>> /\ ready' = TRUE
+               /\ UNCHANGED <<wr, tasks, instr, inflight, stored, out, lastRead, dropped, accepted>>
 \* Socket::recv(n)
 RECURSIVE Fill(_, _, _, _)
 Fill(buf, q, st, n) ==          \* the `while buf.len() < bytes` loop with try_recv
@@ -55,14 +74,14 @@ Fill(buf, q, st, n) ==          \* the `while buf.len() < bytes` loop with try_r
        IF Len(msg) <= room THEN Fill(buf \o msg, Tail(q), st, n)
        ELSE [buf |-> buf \o SubSeq(msg, 1, room), q |-> Tail(q), st |-> SubSeq(msg, room + 1, Len(msg))]
 Recv(n) ==
-  /\ accepted /\ (stored # <<>> \/ sockQ # <<>>)
+  /\ ready /\ (stored # <<>> \/ sockQ # <<>>)          \* (accept() returns the socket after the hand-over)
   /\ LET b0 == IF Len(stored) <= n THEN stored ELSE SubSeq(stored, 1, n)
          s0 == IF Len(stored) <= n THEN <<>> ELSE SubSeq(stored, n + 1, Len(stored))
          r == IF s0 # <<>> THEN [buf |-> b0, q |-> sockQ, st |-> s0] ELSE Fill(b0, sockQ, <<>>, n) IN
      /\ out' = out \o r.buf /\ sockQ' = r.q /\ stored' = r.st
      /\ lastRead' = [n |-> n, len |-> Len(r.buf)]
-  /\ UNCHANGED <<wr, tasks, instr, inflight, dropped, accepted, backlog>>
-Next == SockSend \/ (\E k \in tasks : TaskRun(k)) \/ InstrDequeue \/ (\E m \in 1..3 : SessReceive(m)) \/ Accept
+  /\ UNCHANGED <<wr, tasks, instr, inflight, dropped, accepted, backlog, ready>>
+Next == SockSend \/ (\E k \in tasks : TaskRun(k)) \/ InstrDequeue \/ (\E m \in 1..3 : SessReceive(m)) \/ AcceptTake \/ AcceptDrain
         \/ (\E n \in ReadSizes : Recv(n))
 Spec == Init /\ [][Next]_vars
 \* C02 ---------------------------------------------------------------------
